@@ -146,6 +146,16 @@ example : «matches» HD (abs vDemo') aDemo = false := by decide
 example : member HD vDemo' aDemo = false := by decide
 example : siteError HD .ret (abs vDemo') aDemo = true :=
   (site_exact_partial HD .ret vDemo' aDemo (by decide) (by decide) (by decide) (by decide) (by decide)).2 (by decide)
+/-- class objects against `type[Union[…]]`: K3 (a K1 and a K2) is a `type[Union[K1, int]]`, K0 is not; `bool` and
+`int` are `type[Union[float, str]]` (subclass / promotion), `float` is not a `type[Union[int, str]]` -/
+example : InF2 HD (.typeU [1] [.int]) = true := by decide
+example : «matches» HD (abs (.clsobj 3)) (.typeU [1] [.int]) = true ∧
+    «matches» HD (abs (.clsobj 0)) (.typeU [1] [.int]) = false ∧
+    «matches» HD (abs (.bclsobj 2)) (.typeU [] [.float, .str]) = true ∧
+    «matches» HD (abs (.bclsobj 1)) (.typeU [] [.int, .str]) = false := by decide
+example : siteError HD .ret (abs (.list [.bclsobj 1])) (.gen1 .list (.typeU [2] [.int, .none])) = true :=
+  (site_exact_partial HD .ret (.list [.bclsobj 1]) (.gen1 .list (.typeU [2] [.int, .none])) (by decide) (by decide)
+    (by decide) (by decide) (by decide)).2 (by decide)
 /-- the guard admits unions with several parameterised options when the value has a single view -/
 example : Guard (.list [.int 1]) (.union [.gen1 .list (.base .int), .gen1 .list (.base .str)]) = true := by decide
 /-- and multi-binding values when the union has at most one non-flat option -/
